@@ -67,8 +67,75 @@ LEMMAS.append(LemmaJob("C11", "spatial/unit", l_unit(3), cases=[{"kind": "euclid
 LEMMAS.append(LemmaJob("C11", "lorentz/unit", l_unit(4), cases=[{"kind": "timelike"}, {"kind": "spacelike"}]))
 
 
+def norm_ufuncs(report, results, coverage):
+    """bounded: abs(v), v**2, v**k and numpy.absolute/square/sqrt/cbrt/power of NumPy and Awkward vector arrays are functions of the
+    norm (rho, mag or tau by dimension) - run-time contract over 20 systems x 2 flavors x {NumPy, Awkward array}"""
+    import random
+    import numpy as np
+    from .. import arrays as AR
+    from .. import common as C
+    rng = random.Random(C.seed())
+    n = 0
+    bad = []
+    for s_ in AR.systems():
+        d = len(s_) + 1
+        for mom in (False, True):
+            for layout in ("np(3)", "ak-jagged"):
+                if layout.startswith("ak") and AR.ak is None:
+                    continue
+                v, struct = AR.build(layout, s_, mom, rng)
+                with np.errstate(all="ignore"):
+                    norm = AR.to_nested(getattr(v, {2: "rho", 3: "mag", 4: "tau"}[d]))
+                    norm2 = AR.to_nested(getattr(v, {2: "rho2", 3: "mag2", 4: "tau2"}[d]))
+
+                    def mapn(x, f):
+                        return None if x is None else ([mapn(y, f) for y in x] if isinstance(x, list) else f(x))
+                    cases = [("abs", lambda: abs(v), mapn(norm, lambda r: r)), ("**2", lambda: v ** 2, mapn(norm2, lambda r: r)), ("**3", lambda: v ** 3, mapn(norm, lambda r: r ** 3)),
+                             ("**0.5", lambda: v ** 0.5, mapn(norm, lambda r: r ** 0.5)), ("numpy.absolute", lambda: np.absolute(v), mapn(norm, lambda r: r)),
+                             ("numpy.square", lambda: np.square(v), mapn(norm2, lambda r: r)), ("numpy.sqrt", lambda: np.sqrt(v), mapn(norm, lambda r: r ** 0.5)),
+                             ("numpy.cbrt", lambda: np.cbrt(v), mapn(norm, lambda r: r ** (1 / 3))), ("numpy.power(v,3.5)", lambda: np.power(v, 3.5), mapn(norm, lambda r: r ** 3.5)),
+                             ("numpy.power(v,2)", lambda: np.power(v, 2), mapn(norm2, lambda r: r))]
+                    for name, f, exp in cases:
+                        n += 1
+                        oid = f"C11/norm-ufunc/{name}[{','.join(s_)}|{'mom' if mom else 'gen'}|{layout}]"
+                        try:
+                            got = AR.to_nested(f())
+                            if not AR.close(got, exp, 1e-9, 1e-10):
+                                bad.append((oid, dict(got=str(got)[:120], expected=str(exp)[:120])))
+                        except Exception as e:
+                            bad.append((oid, f"{type(e).__name__}: {str(e)[:120]}"))
+    coverage["bounded_norm_ufuncs"] = dict(evaluations=n, failed=len(bad), bound="20 systems x 2 flavors x NumPy shape (3,) and jagged Awkward arrays, well-conditioned timelike values",
+                                           label="bounded - not counted as proved")
+    groups = {}
+    for oid, d in bad:
+        groups.setdefault(oid.split("[")[0], []).append((oid, d))
+    for g, items in sorted(groups.items()):
+        oid, d = items[0]
+        kf = C.match_known("C11", oid, dict(detail=str(d)))
+        if kf:
+            report.known_finding(oid, kf["what"])
+        else:
+            report.violation(oid, dict(kind="engineD-runtime-contract", failing_lattice_points=len(items), first=dict(obligation=oid, detail=d), replay_handler="vv.props.c11:replay"), has_input=True)
+
+
+def replay(prop, rp, path):
+    class R:
+        def __init__(s): s.v = []
+        def violation(s, oid, *a, **k): s.v.append(oid)
+        def known_finding(s, *a): pass
+    r = R()
+    norm_ufuncs(r, [], {})
+    hit = [o for o in r.v if o.split("[")[0] == rp["first"]["obligation"].split("[")[0]]
+    if hit:
+        print("still failing:", hit[:2])
+        print(f"VIOLATION property={prop} replay={path}")
+        return 1
+    print("contract holds on this tree")
+    return 0
+
+
 def main(argv):
-    return lemma_prop.run("C11", __name__, MODS,
+    return lemma_prop.run("C11", __name__, MODS, post=norm_ufuncs,
                           extra_assumptions=["abs(v), v**2, numpy.sqrt/cbrt/power on vectors are decided at the public-method level (C05 glue obligations for the object "
                                              "backend; NumPy/Awkward ufunc tables in the bounded C03 check)"],
                           note="Vector-space, dot, cross and unit laws on the real Cartesian kernels in 2D/3D/4D; the C01 obligations of add, subtract, scale, "
